@@ -226,3 +226,38 @@ Print Assumptions C17_hidden_dispatch_note.
 Print Assumptions C17_literal_pattern_ok_without_display_none.
 Print Assumptions C17_memo_exact_partial.
 Print Assumptions C17_doc_exact_partial.
+
+(* ---- the TRANSLATED dispatch (Gen/EngineGlueGen.v, regenerated from src/tree/taffy_tree.rs TaffyView::compute_child_layout on every
+   run): the match table on (display_mode, has_children), arm by arm in source order (Coq rejects a redundant or a missing arm; the
+   generator refuses a guard, an unknown pattern or an unknown right-hand side), selects what the model selects -- `t_is_none` first
+   (Engine.memo), then Model/TaffyEngine.v `taffy_dispatch` -- and the complete translated function (hidden-mode guard,
+   compute_cached_layout around the dispatching closure) is one step of `taffy_memo` ---- *)
+From TV Require Num.Num Model.Common Model.Leaf Model.FlexAlgBase Model.BlockFlexEngine Model.TaffyEngine.
+From TV Require Gen.EngineGlueGen Model.EngineGlue Model.EngineGlueTables Model.EngineGlueTaffy Proofs.EngineGlueTaffy.
+
+Theorem C17_translated_dispatch_is_model :
+  forall (T : Type) (H : Num.Num T) (s : TaffyEngine.TStyle T) (n : nat),
+    EngineGlueGen.glue_dispatch (EngineGlueTaffy.glue_display_of (Leaf.display (TaffyEngine.t_core s))) (EngineGlueGen.glue_has_children n) =
+    EngineGlueTaffy.model_kind s n.
+Proof. intros. apply EngineGlueTaffy.translated_dispatch_is_model. Qed.
+
+Theorem C17_translated_child_layout_is_model :
+  forall (T : Type) (H : Num.Num T) teq pre abs_child leaf f
+         (t : Engine.tree (TaffyEngine.TStyle T) (FlexAlgBase.FIn T) (Leaf.LayoutOutput T) (FlexAlgBase.FLay T)) i,
+    TaffyEngine.taffy_memo teq TaffyEngine.taffy_dispatch pre abs_child leaf (Datatypes.S f) t i =
+    EngineGlue.eg_swap _ _ _ _
+      (EngineGlueTaffy.tg_compute_child_layout teq pre abs_child leaf
+         (TaffyEngine.taffy_memo teq TaffyEngine.taffy_dispatch pre abs_child leaf f) t i).
+Proof. intros. apply EngineGlueTaffy.translated_child_layout_is_model. Qed.
+
+(* the table as the source has it, and what it selects on all eight (display, has_children) pairs *)
+Example C17_translated_dispatch_table :
+  EngineGlueGen.glue_dispatch_arms = EngineGlueTables.expected_dispatch_arms /\
+  map (fun d => (EngineGlueGen.glue_dispatch d true, EngineGlueGen.glue_dispatch d false))
+      [EngineGlueGen.GD_Block; EngineGlueGen.GD_Flex; EngineGlueGen.GD_Grid; EngineGlueGen.GD_None] =
+  [(EngineGlueGen.GK_block, EngineGlueGen.GK_leaf); (EngineGlueGen.GK_flex, EngineGlueGen.GK_leaf);
+   (EngineGlueGen.GK_grid, EngineGlueGen.GK_leaf); (EngineGlueGen.GK_hidden, EngineGlueGen.GK_hidden)].
+Proof. split; reflexivity. Qed.
+
+Print Assumptions C17_translated_dispatch_is_model.
+Print Assumptions C17_translated_child_layout_is_model.
